@@ -11,8 +11,24 @@ from ..ctx import HarnessError, jdump
 
 PRODUCERS = ["status", "create_zip", "make_zip", "download", "render_rl", "render_odf"]
 EXT = {"status": "json", "create_zip": "zip", "make_zip": "zip", "download": "bin", "render_rl": "pdf", "render_odf": "odt"}
-NAMES = ["openat", "write", "close", "rename", "renameat", "renameat2", "unlink", "unlinkat", "mkdir", "ftruncate", "fsync", "pwrite64", "writev", "lseek"]
-ERRORS = {"write": "ENOSPC", "openat": "ENOSPC", "mkdir": "ENOSPC", "rename": "EIO", "close": "EIO", "pwrite64": "ENOSPC", "writev": "ENOSPC", "unlink": "EIO"}
+NAMES = ["openat", "write", "close", "rename", "renameat", "renameat2", "unlink", "unlinkat", "mkdir", "ftruncate", "fsync", "pwrite64", "writev",
+         "sendfile", "copy_file_range", "lseek"]
+ERRORS = {"write": "ENOSPC", "openat": "ENOSPC", "mkdir": "ENOSPC", "rename": "EIO", "close": "EIO", "pwrite64": "ENOSPC", "writev": "ENOSPC", "unlink": "EIO",
+          "sendfile": "ENOSPC", "copy_file_range": "ENOSPC"}
+# second layout: the output directory on another file system than the temporary directory (a data volume vs. /tmp)
+OTHER_FS_PRODUCERS = ["status", "create_zip", "make_zip", "download"]  # + the render producers in the thorough tier
+
+
+def other_fs_root():
+    """a writable directory on a different file system than TMPDIR, or None"""
+    tmp = os.environ.get("TMPDIR", "/tmp")
+    for cand in ("/dev/shm", "/var/tmp", os.path.expanduser("~"), "/run/user/%d" % os.getuid()):
+        try:
+            if os.path.isdir(cand) and os.access(cand, os.W_OK) and os.stat(cand).st_dev != os.stat(tmp).st_dev:
+                return cand
+        except OSError:
+            pass
+    return None
 
 META = dict(
     level="fault_enumeration",
@@ -25,7 +41,9 @@ META = dict(
         "user-space buffers are lost) and, for write/openat/mkdir/rename/close/unlink, with error=ENOSPC|EIO instead. The render producers "
         "are strided to <= 24 points per syscall name in the quick tier (lseek points only in the thorough tier). Oracle: the final path, opened by name afterwards, is absent, or "
         "parses completely (JSON / zip with clean testzip and readable nfo.json / exact payload bytes / PDF with pages / ODF package); a "
-        "producer that reports success after an injected error must have left a complete file. Non-trivial: the fault fired inside the "
+        "producer that reports success after an injected error must have left a complete file. Layouts: output next to the temporary directory, "
+        "and (when the host has a second writable file system, e.g. /dev/shm) output on another file system than TMPDIR - all producers in the "
+        "thorough tier, the four cheap ones in the quick tier. Non-trivial: the fault fired inside the "
         "bracket (between the producer's first and last file-system call)."
     ),
     assumptions=[
@@ -41,18 +59,28 @@ META = dict(
 STRACE = shutil.which("strace")
 
 
-def child_cmd(producer, workdir, prestate):
-    return [sys.executable, "-W", "ignore", "-m", "vf.c20_producer", producer, workdir, prestate]
+def child_cmd(producer, workdir, prestate, outdir=None):
+    return [sys.executable, "-W", "ignore", "-m", "vf.c20_producer", producer, workdir, prestate] + ([outdir] if outdir else [])
 
 
-def calibrate(producer, base):
-    """Returns dict(before={name: n}, inside={name: n}, reference=path of the clean output)"""
-    wd = os.path.join(base, "calib-" + producer)
+def child_env(wd):
+    return dict(os.environ, TMPDIR=wd)  # the producer's temporary directory is its (same-fs) work directory
+
+
+def calibrate(producer, base, other=None):
+    """Returns dict(before={name: n}, inside={name: n}, reference=path of the clean output).
+    other: root directory on another file system that receives the output (layout other-fs)"""
+    wd = os.path.join(base, "calib-" + producer + ("-o" if other else ""))
     shutil.rmtree(wd, ignore_errors=True)
     os.makedirs(wd)
+    outdir = None
+    if other:
+        outdir = os.path.join(other, "vf-c20-calib-%d-%s" % (os.getpid(), producer))
+        shutil.rmtree(outdir, ignore_errors=True)
+        os.makedirs(outdir)
     log = os.path.join(wd, "strace.log")
-    cmd = [STRACE, "-f", "-o", log, "-e", "trace=" + ",".join(NAMES + ["newfstatat", "stat"])] + child_cmd(producer, wd, "absent")
-    r = subprocess.run(cmd, capture_output=True, text=True, timeout=600)
+    cmd = [STRACE, "-f", "-o", log, "-e", "trace=" + ",".join(NAMES + ["newfstatat", "stat"])] + child_cmd(producer, wd, "absent", outdir)
+    r = subprocess.run(cmd, capture_output=True, text=True, timeout=600, env=child_env(wd))
     if "RESULT ok" not in r.stdout:
         raise HarnessError("calibration run of producer %s did not succeed: %s %s" % (producer, r.stdout[-500:], r.stderr[-1500:]))
     before, inside = {}, {}
@@ -80,11 +108,16 @@ def calibrate(producer, base):
                 inside[name] = inside.get(name, 0) + 1
     if state != 2:
         raise HarnessError("calibration of %s: markers not seen in the strace log" % producer)
-    final = os.path.join(wd, "final." + EXT[producer])
+    final = os.path.join(outdir or wd, "final." + EXT[producer])
     why = validate(producer, final)
     if why or not os.path.exists(final):
         raise HarnessError("calibration of %s: clean run left no valid output (%s)" % (producer, why or "absent"))
     os.remove(log)
+    if outdir:
+        ref = os.path.join(wd, "reference." + EXT[producer])
+        shutil.copy(final, ref)
+        shutil.rmtree(outdir, ignore_errors=True)
+        final = ref
     return dict(before=before, inside=inside, reference=final)
 
 
@@ -98,8 +131,12 @@ def prepare():
         raise HarnessError("ptrace is not permitted here: %s" % probe.stderr[:300])
     from concurrent.futures import ThreadPoolExecutor
 
-    with ThreadPoolExecutor(6) as ex:
-        res = dict(zip(PRODUCERS, ex.map(lambda p: calibrate(p, base), PRODUCERS)))
+    other = other_fs_root()
+    jobs = [(p, None) for p in PRODUCERS] + ([(p, other) for p in PRODUCERS] if other else [])
+    with ThreadPoolExecutor(12) as ex:
+        out = list(ex.map(lambda j: calibrate(j[0], base, j[1]), jobs))
+    res = {(p + ("@other-fs" if o else "")): c for (p, o), c in zip(jobs, out)}
+    res["_other_fs_root"] = other
     with open(os.path.join(base, "c20-calibration.json"), "w") as f:
         json.dump(res, f)
 
@@ -150,11 +187,18 @@ def validate(producer, final):
     return None
 
 
-def run_point(ctx, calib, base, producer, prestate, fault, name, k):
+def run_point(ctx, calib, base, producer, prestate, fault, name, k, layout="same-fs"):
     wd = os.path.join(base, "run")
     shutil.rmtree(wd, ignore_errors=True)
     os.makedirs(wd)
-    final = os.path.join(wd, "final." + EXT[producer])
+    outdir = None
+    ckey = producer
+    if layout == "other-fs":
+        outdir = os.path.join(calib["_other_fs_root"], "vf-c20-%d-%s" % (os.getpid(), os.path.basename(base)))
+        shutil.rmtree(outdir, ignore_errors=True)
+        os.makedirs(outdir)
+        ckey = producer + "@other-fs"
+    final = os.path.join(outdir or wd, "final." + EXT[producer])
     if prestate == "previous":
         if producer == "download":
             from ..c20_producer import PAYLOAD_OLD
@@ -165,12 +209,12 @@ def run_point(ctx, calib, base, producer, prestate, fault, name, k):
             with open(final, "w") as f:
                 json.dump({"status": "previous run", "progress": 100}, f)
         else:
-            shutil.copy(calib[producer]["reference"], final)
+            shutil.copy(calib[ckey]["reference"], final)
     inject = "%s:signal=SIGKILL:when=%d" % (name, k) if fault == "kill" else "%s:error=%s:when=%d" % (name, ERRORS[name], k)
     log = os.path.join(wd, "strace.log")
-    cmd = [STRACE, "-f", "-o", log, "-e", "trace=%s,newfstatat,stat" % name, "-e", "inject=" + inject] + child_cmd(producer, wd, prestate)
+    cmd = [STRACE, "-f", "-o", log, "-e", "trace=%s,newfstatat,stat" % name, "-e", "inject=" + inject] + child_cmd(producer, wd, prestate, outdir)
     try:
-        r = subprocess.run(cmd, capture_output=True, text=True, timeout=300)
+        r = subprocess.run(cmd, capture_output=True, text=True, timeout=300, env=child_env(wd))
         out, rc = r.stdout, r.returncode
     except subprocess.TimeoutExpired:
         out, rc = "", "timeout"
@@ -190,17 +234,22 @@ def run_point(ctx, calib, base, producer, prestate, fault, name, k):
         pass
     inside = fired and began and not ended if fault == "kill" else fired and locals().get("inside", False)
     case = dict(producer=producer, prestate=prestate, fault=fault, syscall=name, k=k)
+    if layout != "same-fs":
+        case["layout"] = layout
     why = validate(producer, final)
     if why:
         ctx.fail("%s:partial-file-visible:%s" % (producer, fault), case, "after %s on %s #%d (child rc=%r): %s" % (fault, name, k, rc, why))
     elif fault == "error" and "RESULT ok" in out and not os.path.exists(final):
         ctx.fail("%s:success-reported-without-output" % producer, case, "producer reported success after %s on %s #%d but the final path is missing" % (ERRORS[name], name, k))
     shutil.rmtree(wd, ignore_errors=True)
+    if outdir:
+        shutil.rmtree(outdir, ignore_errors=True)
     return inside, fired
 
 
 def points(calib, producer, thorough):
     c = calib[producer]
+    producer = producer.split("@")[0]
     pts = []
     for name in NAMES:
         n = c["inside"].get(name, 0)
@@ -222,8 +271,15 @@ def replay(ctx, case):
     base = os.path.join(ctx.workdir, "c20-replay-%d" % os.getpid())
     os.makedirs(base, exist_ok=True)
     os.environ.setdefault("TMPDIR", base)
-    calib = {case["producer"]: calibrate(case["producer"], base)}
-    run_point(ctx, calib, base, case["producer"], case["prestate"], case["fault"], case["syscall"], case["k"])
+    layout = case.get("layout", "same-fs")
+    if layout == "other-fs":
+        other = other_fs_root()
+        if not other:
+            raise HarnessError("no second writable file system here: the other-fs layout cannot be replayed")
+        calib = {case["producer"] + "@other-fs": calibrate(case["producer"], base, other), "_other_fs_root": other}
+    else:
+        calib = {case["producer"]: calibrate(case["producer"], base)}
+    run_point(ctx, calib, base, case["producer"], case["prestate"], case["fault"], case["syscall"], case["k"], layout)
     shutil.rmtree(base, ignore_errors=True)
 
 
@@ -236,14 +292,21 @@ def run_shard(ctx):
     for producer in PRODUCERS:
         for prestate in ("absent", "previous"):
             for fault, name, k in points(calib, producer, ctx.thorough):
-                tasks.append((producer, prestate, fault, name, k))
-    for i, (producer, prestate, fault, name, k) in enumerate(tasks):
+                tasks.append((producer, prestate, fault, name, k, "same-fs"))
+    if calib.get("_other_fs_root"):
+        for producer in (PRODUCERS if ctx.thorough else OTHER_FS_PRODUCERS):
+            for prestate in ("absent", "previous"):
+                for fault, name, k in points(calib, producer + "@other-fs", ctx.thorough):
+                    tasks.append((producer, prestate, fault, name, k, "other-fs"))
+    for i, (producer, prestate, fault, name, k, layout) in enumerate(tasks):
         if i % ctx.nshards != ctx.shard:
             continue
         case = dict(producer=producer, prestate=prestate, fault=fault, syscall=name, k=k)
+        if layout != "same-fs":
+            case["layout"] = layout
         ctx.announce(case)
-        inside, fired = run_point(ctx, calib, base, producer, prestate, fault, name, k)
-        labels = ["producer:" + producer, "pre:" + prestate, "fault:" + fault, "syscall:" + name]
+        inside, fired = run_point(ctx, calib, base, producer, prestate, fault, name, k, layout)
+        labels = ["producer:" + producer, "pre:" + prestate, "fault:" + fault, "syscall:" + name, "layout:" + layout]
         if inside:
             labels.append("nontrivial")
         if not fired:
@@ -251,5 +314,6 @@ def run_shard(ctx):
         ctx.record(jdump(case), labels, inside, sample=dict(case, fired_inside_producer=inside))
     if ctx.shard == 0:
         ctx.note("crash_points_total", len(tasks))
-        ctx.note("syscalls_inside_producers", {p: calib[p]["inside"] for p in PRODUCERS})
+        ctx.note("syscalls_inside_producers", {p: c["inside"] for p, c in calib.items() if isinstance(c, dict)})
+        ctx.note("other_fs_root", calib.get("_other_fs_root") or "none: the other-fs layout was not explored on this host")
     shutil.rmtree(base, ignore_errors=True)
